@@ -10,14 +10,7 @@ Theorem C06_fragmentation : forall (cmd data : bytes) (pc m : N), legal_max m ->
     dimse_encode cmd data pc m = Ok (cs ++ ds)          (* all command fragments, then all data fragments *)
     /\ stream_ok pc (eff_max m) 1 3 cmd cs                (* command stream: ctl 1 ... 1 3 *)
     /\ stream_ok pc (eff_max m) 0 2 data ds.              (* data stream:    ctl 0 ... 0 2, absent iff no data *)
-Proof.
-  intros cmd data pc m Hm.
-  exists (mk_frags pc (map (tag 1 3) (chunks (eff_max m - 6) cmd))),
-         (mk_frags pc (map (tag 0 2) (chunks (eff_max m - 6) data))).
-  split; [exact (dimse_encode_ok cmd data pc m Hm)|].
-  apply eff_max_legal in Hm.
-  split; apply stream_of_chunks; try exact Hm; discriminate.
-Qed.
+Proof. exact fragmentation_spec. Qed.
 Print Assumptions C06_fragmentation.
 
 (* identical whether the data set was supplied as bytes or as a seekable file *)
